@@ -1543,6 +1543,9 @@ impl Vm {
             return Err(self.new_error_from_value(exc_object));
         };
 
+        // The slots discarded below may be captured by closures that outlive them.
+        self.active_fiber_mut()
+            .close_upvalues(handler.init_stack_size);
         self.active_fiber_mut()
             .stack
             .truncate(handler.init_stack_size);
